@@ -10,6 +10,7 @@ import (
 	"github.com/hashicorp/hcl/v2/hclsyntax"
 	hcljson "github.com/hashicorp/hcl/v2/json"
 	"github.com/zclconf/go-cty/cty"
+	"github.com/zclconf/go-cty/cty/function"
 
 	"hx/lib"
 	"hx/props/evalgen"
@@ -277,10 +278,14 @@ func directedGeneratedAttrs(cx *lib.Ctx) {
 		{cty.SetVal([]cty.Value{s("none")}), cty.SetVal([]cty.Value{s("some")})},
 		{cty.TupleVal([]cty.Value{s("none"), s("x")}), cty.TupleVal([]cty.Value{s("some"), s("x")})},
 		{cty.ObjectVal(map[string]cty.Value{"k": s("none")}), cty.ObjectVal(map[string]cty.Value{"k": s("some")})},
+		// a content that is not known yet is a content too: the placeholder block stands for all of them
+		{cty.ListVal([]cty.Value{s("some")}), cty.UnknownVal(cty.List(cty.String))},
+		{cty.UnknownVal(cty.Map(cty.String)), cty.MapVal(map[string]cty.Value{"k": s("some")})},
+		{cty.TupleVal([]cty.Value{s("x")}), cty.DynamicVal},
 	}
 	schema := &hcl.BodySchema{Blocks: []hcl.BlockHeaderSchema{{Type: "b"}}}
 	for _, ex := range exprs {
-		src := "dynamic \"b\" {\n for_each = coll\n content {\n  x = " + ex + "\n  sub {\n   y = " + ex + "\n  }\n }\n}\n"
+		src := "dynamic \"b\" {\n for_each = coll\n content {\n  x = " + ex + "\n  z = " + ex + "\n  sub {\n   y = " + ex + "\n  }\n }\n}\n"
 		f, diags := hclsyntax.ParseConfig([]byte(src), "", hcl.InitialPos)
 		if diags.HasErrors() {
 			res.Fail(lib.Failure{Kind: "oracle", Key: "harness:directed-unparseable", Desc: diags.Error(), Input: src})
@@ -306,6 +311,12 @@ func directedGeneratedAttrs(cx *lib.Ctx) {
 						}
 						if v, vd := bc.Attributes["x"].Expr.Value(ctx); !vd.HasErrors() {
 							got[run][fmt.Sprintf("block %d: x", bi)] = v
+						}
+						// the second pass over what the first one left
+						if zc, _, d := rest.PartialContent(&hcl.BodySchema{Attributes: []hcl.AttributeSchema{{Name: "z"}}}); !d.HasErrors() && zc.Attributes["z"] != nil {
+							if v, vd := zc.Attributes["z"].Expr.Value(ctx); !vd.HasErrors() {
+								got[run][fmt.Sprintf("block %d: z (from the remaining body)", bi)] = v
+							}
 						}
 						if sc, _, d := rest.PartialContent(&hcl.BodySchema{Blocks: []hcl.BlockHeaderSchema{{Type: "sub"}}}); !d.HasErrors() && len(sc.Blocks) == 1 {
 							if attrs, d := sc.Blocks[0].Body.JustAttributes(); !d.HasErrors() && attrs["y"] != nil {
@@ -343,6 +354,90 @@ func directedGeneratedAttrs(cx *lib.Ctx) {
 				}
 			}
 			res.Case(fmt.Sprintf("directed-generated-attrs|%s|%d", ex, ci), true)
+		}
+	}
+}
+
+// directedWrappedSpecs: two-run decode of one attribute through every spec that wraps another one and passes its
+// value on (validation, transformation by function and by expression, refinement, default, object, tuple): the
+// wrapper sees a marked value and must hand it on with its marks.
+func directedWrappedSpecs(cx *lib.Ctx) {
+	res := cx.Res
+	attr := func() hcldec.Spec { return &hcldec.AttrSpec{Name: "a", Type: cty.DynamicPseudoType} }
+	idExpr, _ := hclsyntax.ParseExpression([]byte("v"), "", hcl.InitialPos)
+	wrapExpr, _ := hclsyntax.ParseExpression([]byte("[v, 1]"), "", hcl.InitialPos)
+	wrappers := map[string]func(hcldec.Spec) hcldec.Spec{
+		"validate": func(s hcldec.Spec) hcldec.Spec {
+			return &hcldec.ValidateSpec{Wrapped: s, Func: func(cty.Value) hcl.Diagnostics { return nil }}
+		},
+		"validate-warn": func(s hcldec.Spec) hcldec.Spec {
+			return &hcldec.ValidateSpec{Wrapped: s, Func: func(cty.Value) hcl.Diagnostics { return hcl.Diagnostics{{Severity: hcl.DiagWarning, Summary: "w"}} }}
+		},
+		"transform-func": func(s hcldec.Spec) hcldec.Spec {
+			return &hcldec.TransformFuncSpec{Wrapped: s, Func: function.New(&function.Spec{Params: []function.Parameter{{Name: "v", Type: cty.DynamicPseudoType, AllowMarked: true, AllowNull: true, AllowUnknown: true, AllowDynamicType: true}}, Type: func(args []cty.Value) (cty.Type, error) { return args[0].Type(), nil }, Impl: func(args []cty.Value, _ cty.Type) (cty.Value, error) { return args[0], nil }})}
+		},
+		"transform-expr": func(s hcldec.Spec) hcldec.Spec {
+			return &hcldec.TransformExprSpec{Wrapped: s, Expr: idExpr, VarName: "v"}
+		},
+		"transform-wrap": func(s hcldec.Spec) hcldec.Spec {
+			return &hcldec.TransformExprSpec{Wrapped: s, Expr: wrapExpr, VarName: "v"}
+		},
+		"refine": func(s hcldec.Spec) hcldec.Spec {
+			return &hcldec.RefineValueSpec{Wrapped: s, Refine: func(b *cty.RefinementBuilder) *cty.RefinementBuilder { return b }}
+		},
+		"default": func(s hcldec.Spec) hcldec.Spec {
+			return &hcldec.DefaultSpec{Primary: s, Default: &hcldec.LiteralSpec{Value: cty.StringVal("d")}}
+		},
+		"object": func(s hcldec.Spec) hcldec.Spec { return hcldec.ObjectSpec{"w": s} },
+		"tuple":  func(s hcldec.Spec) hcldec.Spec { return hcldec.TupleSpec{s} },
+	}
+	exprs := []string{`secret`, `"id-${secret}"`, `[secret]`, `{ k = secret }`, `secret != "" ? 1 : 2`, `upper(secret)`, `secret == "alpha" ? null : secret`}
+	for wname, w := range wrappers {
+		for _, twice := range []bool{false, true} {
+			spec := w(attr())
+			if twice {
+				spec = w(w(attr()))
+			}
+			for _, ex := range exprs {
+				src := "a = " + ex + "\n"
+				f, diags := hclsyntax.ParseConfig([]byte(src), "", hcl.InitialPos)
+				if diags.HasErrors() {
+					res.Fail(lib.Failure{Kind: "oracle", Key: "harness:directed-unparseable", Desc: diags.Error(), Input: src})
+					continue
+				}
+				input := fmt.Sprintf("%s (twice=%v) over: %s-- secret = \"alpha\" | \"beta\" (marked %q)", wname, twice, src, Mark)
+				var vals [2]cty.Value
+				ok := true
+				for i, content := range []string{"alpha", "beta"} {
+					ctx := &hcl.EvalContext{Variables: map[string]cty.Value{"secret": cty.StringVal(content).Mark(Mark)}, Functions: evalgen.Funcs()}
+					good := cx.Guard("directed-wrapped-spec:"+wname, input, func() {
+						v, d := hcldec.Decode(f.Body, spec, ctx)
+						if d.HasErrors() {
+							ok = false
+						}
+						vals[i] = v
+					})
+					if !good {
+						ok = false
+					}
+				}
+				res.Count("directed-wrapped-spec:cases")
+				res.Case(fmt.Sprintf("directed-wrapped-spec|%s|%v|%s", wname, twice, ex), ok)
+				if !ok {
+					res.Count("directed-wrapped-spec:error-or-panic")
+					continue
+				}
+				ua, _ := vals[0].UnmarkDeep()
+				ub, _ := vals[1].UnmarkDeep()
+				if lib.DumpValue(ua) == lib.DumpValue(ub) {
+					continue
+				}
+				if !hasMark(vals[0]) || !hasMark(vals[1]) {
+					res.Fail(lib.Failure{Kind: "oracle", Key: "mark-lost:hcldec:wrapper:" + wname,
+						Desc:  "changing the content of the marked variable changes the decoded value, but a result does not carry the mark",
+						Input: input, Impl: "run A: " + lib.DumpValue(vals[0]) + "\nrun B: " + lib.DumpValue(vals[1])})
+				}
+			}
 		}
 	}
 }
